@@ -1057,4 +1057,497 @@ theorem inferSpec_den_pos (cs ds : List Pt) (enc : List Bool) (k : Nat) :
     · exact ⟨iupAxis_den_pos .., iupAxis_den_pos ..⟩
     · simp
 
+/-! ### the reader's loops (`interpolate_deltas`) pick the specification's references -/
+
+abbrev H (has : List Bool) (i : Nat) : Bool := has.getD i false
+
+theorem scanFirst_spec (has : List Bool) (np last : Nat) (hl : last < np) :
+    ∀ (fuel p : Nat), p ≤ last + 1 → last + 1 - p ≤ fuel →
+      ∃ fd, scanFirst has np last fuel p = some fd ∧ p ≤ fd ∧ fd ≤ last + 1 ∧
+        (∀ j, p ≤ j → j < fd → H has j = false) ∧ (fd ≤ last → H has fd = true) := by
+  intro fuel
+  induction fuel with
+  | zero =>
+    intro p hp hf
+    have : p = last + 1 := by omega
+    subst this
+    exact ⟨last + 1, rfl, Nat.le_refl _, Nat.le_refl _, fun j h1 h2 => by omega, fun h => by omega⟩
+  | succ f ih =>
+    intro p hp hf
+    simp only [scanFirst]
+    by_cases hpl : p ≤ last
+    · have hnp : ¬ (p ≥ np) := by omega
+      simp only [hpl, if_true, hnp, if_false]
+      cases hh : has.getD p false with
+      | true =>
+        simp only [if_true]
+        exact ⟨p, rfl, Nat.le_refl _, by omega, fun j h1 h2 => by omega, fun _ => hh⟩
+      | false =>
+        simp only [Bool.false_eq_true, if_false]
+        obtain ⟨fd, e, h1, h2, h3, h4⟩ := ih (p + 1) (by omega) (by omega)
+        refine ⟨fd, e, by omega, h2, fun j hj1 hj2 => ?_, h4⟩
+        by_cases hjp : j = p
+        · subst hjp; exact hh
+        · exact h3 j (by omega) hj2
+    · have : p = last + 1 := by omega
+      subst this
+      simp only [hpl, if_false]
+      exact ⟨last + 1, rfl, Nat.le_refl _, Nat.le_refl _, fun j h1 h2 => by omega, fun h => by omega⟩
+
+/-- consecutive explicit points -/
+def Consec (has : List Bool) (a b : Nat) : Prop :=
+  H has a = true ∧ H has b = true ∧ a < b ∧ ∀ j, a < j → j < b → H has j = false
+
+/-- a call made by the inner loop: interpolate strictly between two consecutive explicit points -/
+def IsMid (has : List Bool) (c : Call) : Prop :=
+  c.shift = false ∧ Consec has c.r1 c.r2 ∧ c.lo = c.r1 + 1 ∧ c.hi = c.r2 - 1
+
+theorem innerLoop_spec (has : List Bool) (np last : Nat) (hl : last < np) :
+    ∀ (fuel p cur : Nat) (calls : List Call), cur < p → p ≤ last + 1 → last + 1 - p ≤ fuel →
+      H has cur = true → (∀ j, cur < j → j < p → H has j = false) →
+      ∃ news cur', innerLoop has np last fuel p cur calls = some (calls ++ news, cur') ∧
+        H has cur' = true ∧ cur ≤ cur' ∧ cur' ≤ last ∧ (∀ j, cur' < j → j ≤ last → H has j = false) ∧
+        (∀ c ∈ news, IsMid has c ∧ cur ≤ c.r1 ∧ c.r2 ≤ cur') ∧
+        (∀ a b, Consec has a b → cur ≤ a → b ≤ cur' → ∃ c ∈ news, c.r1 = a ∧ c.r2 = b) := by
+  intro fuel
+  induction fuel with
+  | zero =>
+    intro p cur calls h1 h2 h3 h4 h5
+    have : p = last + 1 := by omega
+    subst this
+    refine ⟨[], cur, by simp [innerLoop], h4, Nat.le_refl _, by omega, fun j a b => h5 j a (by omega),
+      fun c hc => by simp at hc, fun a b hc ha hb => ?_⟩
+    obtain ⟨_, hb2, hab, _⟩ := hc
+    have : b = cur ∨ b < cur := by omega
+    omega
+  | succ f ih =>
+    intro p cur calls h1 h2 h3 h4 h5
+    simp only [innerLoop]
+    by_cases hpl : p ≤ last
+    · have hnp : ¬ (p ≥ np) := by omega
+      simp only [hpl, if_true, hnp, if_false]
+      cases hh : has.getD p false with
+      | true =>
+        simp only [if_true]
+        obtain ⟨news, cur', e, g1, g2, g3, g4, g5, g6⟩ :=
+          ih (p + 1) p (calls ++ [⟨cur + 1, p - 1, cur, p, false⟩]) (by omega) (by omega) (by omega) hh
+            (fun j a b => by omega)
+        refine ⟨⟨cur + 1, p - 1, cur, p, false⟩ :: news, cur', by rw [e]; simp, g1, by omega, g3, g4,
+          fun c hc => ?_, fun a b hc ha hb => ?_⟩
+        · simp only [List.mem_cons] at hc
+          rcases hc with rfl | hc
+          · exact ⟨⟨rfl, ⟨h4, hh, h1, h5⟩, rfl, rfl⟩, Nat.le_refl _, g2⟩
+          · obtain ⟨q1, q2, q3⟩ := g5 c hc
+            exact ⟨q1, by omega, q3⟩
+        · by_cases hap : p ≤ a
+          · obtain ⟨c, hc1, hc2⟩ := g6 a b hc hap hb
+            exact ⟨c, List.mem_cons_of_mem _ hc1, hc2⟩
+          · -- a < p: then a = cur and b = p
+            obtain ⟨ha1, hb1, hab, hno⟩ := hc
+            have hacur : a = cur := by
+              rcases Nat.lt_or_ge cur a with h | h
+              · have := h5 a h (by omega); rw [this] at ha1; cases ha1
+              · omega
+            have hbp : b = p := by
+              rcases Nat.lt_or_ge b p with h | h
+              · have := h5 b (by omega) h; rw [this] at hb1; cases hb1
+              · rcases Nat.lt_or_ge p b with h' | h'
+                · have := hno p (by omega) h'
+                  have hh' : H has p = true := hh
+                  rw [hh'] at this; cases this
+                · omega
+            exact ⟨⟨cur + 1, p - 1, cur, p, false⟩, List.mem_cons_self .., hacur.symm, hbp.symm⟩
+      | false =>
+        simp only [Bool.false_eq_true, if_false]
+        exact ih (p + 1) cur calls (by omega) (by omega) (by omega) h4 (fun j a b => by
+          by_cases hjp : j = p
+          · subst hjp; exact hh
+          · exact h5 j a (by omega))
+    · have : p = last + 1 := by omega
+      subst this
+      simp only [hpl, if_false]
+      refine ⟨[], cur, by simp, h4, Nat.le_refl _, by omega, fun j a b => h5 j a (by omega),
+        fun c hc => by simp at hc, fun a b hc ha hb => ?_⟩
+      obtain ⟨_, hb2, hab, _⟩ := hc
+      omega
+
+
+theorem prevFrom_wrap2 (enc : List Bool) (n a : Nat) (ha : a < n) (hta : enc.getD a false = true)
+    (hno2 : ∀ j, a < j → j < n → enc.getD j false = false) :
+    ∀ (p f : Nat), p < n → p + 1 + (n - 1 - a) < f → (∀ j, j ≤ p → enc.getD j false = false) →
+      prevFrom enc n f p = some a := by
+  intro p
+  induction p with
+  | zero =>
+    intro f hp hf hno
+    obtain ⟨f', rfl⟩ : ∃ f', f = f' + 1 := ⟨f - 1, by omega⟩
+    have h0 : enc.getD 0 false = false := hno 0 (by omega)
+    have hpred : predC n 0 = n - 1 := by simp [predC]
+    simp only [prevFrom, h0, Bool.false_eq_true, if_false, hpred]
+    exact prevFrom_lin enc n (n - 1 - a) f' (n - 1) a (by omega) (by omega) hta
+      (fun j h1 h2 => hno2 j h1 (by omega))
+  | succ p ih =>
+    intro f hp hf hno
+    obtain ⟨f', rfl⟩ : ∃ f', f = f' + 1 := ⟨f - 1, by omega⟩
+    have hpf : enc.getD (p + 1) false = false := hno (p + 1) (by omega)
+    have hpred : predC n (p + 1) = p := by unfold predC; split <;> omega
+    simp only [prevFrom, hpf, Bool.false_eq_true, if_false, hpred]
+    exact ih f' (by omega) (by omega) (fun j h => hno j (by omega))
+
+theorem nextFrom_wrap2 (enc : List Bool) (n b : Nat) (hb : b < n) (htb : enc.getD b false = true)
+    (hno2 : ∀ j, j < b → enc.getD j false = false) :
+    ∀ (d p f : Nat), p + d = n - 1 → p < n → d + 1 + b < f → (∀ j, p ≤ j → j < n → enc.getD j false = false) →
+      nextFrom enc n f p = some b := by
+  intro d
+  induction d with
+  | zero =>
+    intro p f hpd hp hf hno
+    obtain ⟨f', rfl⟩ : ∃ f', f = f' + 1 := ⟨f - 1, by omega⟩
+    have h0 : enc.getD p false = false := hno p (by omega) hp
+    have hs : succC n p = 0 := by unfold succC; split <;> omega
+    simp only [nextFrom, h0, Bool.false_eq_true, if_false, hs]
+    exact nextFrom_lin enc n b f' 0 b (by omega) (by omega) hb htb (fun j h1 h2 => hno2 j h2)
+  | succ d ih =>
+    intro p f hpd hp hf hno
+    obtain ⟨f', rfl⟩ : ∃ f', f = f' + 1 := ⟨f - 1, by omega⟩
+    have h0 : enc.getD p false = false := hno p (by omega) hp
+    have hs : succC n p = p + 1 := by unfold succC; split <;> omega
+    simp only [nextFrom, h0, Bool.false_eq_true, if_false, hs]
+    exact ih (p + 1) f' (by omega) (by omega) (by omega) (fun j h1 h2 => hno j (by omega) h2)
+
+theorem exists_prev (has : List Bool) (lo : Nat) (hlo : H has lo = true) :
+    ∀ k, lo < k → ∃ a, lo ≤ a ∧ a < k ∧ H has a = true ∧ ∀ j, a < j → j < k → H has j = false := by
+  intro k
+  induction k with
+  | zero => intro h; omega
+  | succ k ih =>
+    intro h
+    cases hk : H has k with
+    | true => exact ⟨k, by omega, by omega, hk, fun j h1 h2 => by omega⟩
+    | false =>
+      have hne : lo ≠ k := by intro e; subst e; rw [hlo] at hk; cases hk
+      obtain ⟨a, a1, a2, a3, a4⟩ := ih (by omega)
+      refine ⟨a, a1, by omega, a3, fun j h1 h2 => ?_⟩
+      by_cases hjk : j = k
+      · subst hjk; exact hk
+      · exact a4 j h1 (by omega)
+
+theorem exists_next (has : List Bool) (hi : Nat) (hhi : H has hi = true) :
+    ∀ d k, k + d = hi → 0 < d → ∃ b, k < b ∧ b ≤ hi ∧ H has b = true ∧ ∀ j, k < j → j < b → H has j = false := by
+  intro d
+  induction d with
+  | zero => intro k _ h; omega
+  | succ d ih =>
+    intro k hk _
+    cases hk1 : H has (k + 1) with
+    | true => exact ⟨k + 1, by omega, by omega, hk1, fun j h1 h2 => by omega⟩
+    | false =>
+      have hne : k + 1 ≠ hi := by intro e; rw [e, hhi] at hk1; cases hk1
+      obtain ⟨b, b1, b2, b3, b4⟩ := ih (k + 1) (by omega) (by omega)
+      refine ⟨b, by omega, b2, b3, fun j h1 h2 => ?_⟩
+      by_cases hjk : j = k + 1
+      · subst hjk; exact hk1
+      · exact b4 j (by omega) h2
+
+
+
+theorem covers_iff (c : Call) (k : Nat) :
+    covers c k = true ↔ c.lo ≤ k ∧ k ≤ c.hi ∧ ¬ (c.shift = true ∧ k = c.r1) := by
+  unfold covers
+  simp only [Bool.and_eq_true, decide_eq_true_eq, Bool.not_eq_true', Bool.and_eq_false_iff,
+    decide_eq_false_iff_not]
+  constructor
+  · rintro ⟨⟨h1, h2⟩, h3⟩
+    refine ⟨h1, h2, fun ⟨a, b⟩ => ?_⟩
+    rcases h3 with h3 | h3
+    · rw [a] at h3; cases h3
+    · exact h3 b
+  · rintro ⟨h1, h2, h3⟩
+    refine ⟨⟨h1, h2⟩, ?_⟩
+    cases hs : c.shift with
+    | false => exact Or.inl rfl
+    | true => exact Or.inr (fun hk => h3 ⟨hs, hk⟩)
+
+/-- what a call that writes point `k` must look like: `k` has no explicit delta and the call's
+reference points are the specification's (nearest explicit point before / after, cyclically) -/
+def GoodFor (has : List Bool) (n : Nat) (c : Call) (k : Nat) : Prop :=
+  H has k = false ∧ prevReq has n k = some c.r1 ∧ nextReq has n k = some c.r2 ∧
+    (c.shift = true → c.r1 = c.r2)
+
+/-- **The reader's loops pick the specification's references.**  For a contour occupying points
+`0 ..= n-1`: `interpolate_deltas` makes no call when the contour has no explicit delta; otherwise
+every point without an explicit delta is written by some call, and every call that writes a point
+`k` uses as its references exactly the nearest explicit points before and after `k` in cyclic order
+(`shift`: the single explicit point, for both). -/
+theorem readerContourCalls_spec (has : List Bool) (n np : Nat) (hn : 0 < n) (hnp : n ≤ np) :
+    ∃ calls p', readerContourCalls has np 0 (n - 1) = some (calls, p') ∧
+      ((∀ j, j < n → H has j = false) → calls = []) ∧
+      (∀ c ∈ calls, ∀ k, k < n → covers c k = true → GoodFor has n c k) ∧
+      (∀ k, k < n → H has k = false → (∃ j, j < n ∧ H has j = true) → ∃ c ∈ calls, covers c k = true) := by
+  have hl : n - 1 < np := by omega
+  unfold readerContourCalls
+  obtain ⟨fd, e1, s1, s2, s3, s4⟩ := scanFirst_spec has np (n - 1) hl (n - 1 + 2 - 0) 0 (by omega) (by omega)
+  rw [e1]
+  simp only []
+  by_cases hfd : fd > n - 1
+  · -- no explicit delta in the contour
+    simp only [hfd, if_true]
+    refine ⟨[], fd, rfl, fun _ => rfl, fun c hc => by simp at hc, fun k hk hk0 ⟨j, hj, hjt⟩ => ?_⟩
+    have := s3 j (by omega) (by omega); rw [this] at hjt; cases hjt
+  · simp only [hfd, if_false]
+    have hfdn : fd < n := by omega
+    have hfdt : H has fd = true := s4 (by omega)
+    obtain ⟨news, cur', e2, g1, g2, g3, g4, g5, g6⟩ :=
+      innerLoop_spec has np (n - 1) hl (n - 1 + 1 - fd) (fd + 1) fd [] (by omega) (by omega) (by omega) hfdt
+        (fun j a b => by omega)
+    rw [e2]
+    simp only [List.nil_append]
+    have hbefore : ∀ j, j < fd → H has j = false := fun j hj => s3 j (by omega) hj
+    have hafter : ∀ j, cur' < j → j < n → H has j = false := fun j h1 h2 => g4 j h1 (by omega)
+    -- facts shared by both shapes: calls of the inner loop
+    have hmid : ∀ c ∈ news, ∀ k, k < n → covers c k = true → GoodFor has n c k := by
+      intro c hc k hk hcov
+      obtain ⟨⟨m1, ⟨m2, m3, m4, m5⟩, m6, m7⟩, m8, m9⟩ := g5 c hc
+      obtain ⟨c1, c2, _⟩ := (covers_iff c k).mp hcov
+      have hk1 : c.r1 < k := by omega
+      have hk2 : k < c.r2 := by omega
+      refine ⟨m5 k hk1 hk2, ?_, ?_, fun hs => by rw [m1] at hs; cases hs⟩
+      · exact prevReq_of_LinPrev has n k c.r1 hk (Or.inl ⟨hk1, m2, fun j a b => m5 j a (by omega)⟩)
+      · exact nextReq_of_LinNext has n k c.r2 ⟨hk2, by omega, m3, fun j a b => m5 j (by omega) b⟩
+    -- wrap-around references
+    have hprev_wrap : ∀ k, k < fd → prevReq has n k = some cur' := by
+      intro k hk
+      unfold prevReq
+      by_cases hk0 : k = 0
+      · subst hk0
+        have : predC n 0 = n - 1 := by simp [predC]
+        rw [this]
+        exact prevFrom_lin has n (n - 1 - cur') n (n - 1) cur' (by omega) (by omega) g1
+          (fun j a b => hafter j a (by omega))
+      · have : predC n k = k - 1 := by unfold predC; split <;> omega
+        rw [this]
+        exact prevFrom_wrap2 has n cur' (by omega) g1 hafter (k - 1) n (by omega) (by omega)
+          (fun j hj => hbefore j (by omega))
+    have hnext_wrap : ∀ k, cur' < k → k < n → nextReq has n k = some fd := by
+      intro k hk hkn
+      unfold nextReq
+      by_cases hkl : k + 1 ≥ n
+      · have : succC n k = 0 := by unfold succC; split <;> omega
+        rw [this]
+        exact nextFrom_lin has n fd n 0 fd (by omega) (by omega) hfdn hfdt (fun j a b => hbefore j b)
+      · have : succC n k = k + 1 := by unfold succC; split <;> omega
+        rw [this]
+        exact nextFrom_wrap2 has n fd hfdn hfdt hbefore (n - 1 - (k + 1)) (k + 1) n (by omega) (by omega)
+          (by omega) (fun j a b => hafter j (by omega) b)
+    have hprev_lin : ∀ k a, a < k → k < n → H has a = true → (∀ j, a < j → j < k → H has j = false) →
+        prevReq has n k = some a := fun k a h1 h2 h3 h4 =>
+      prevReq_of_LinPrev has n k a h2 (Or.inl ⟨h1, h3, h4⟩)
+    have hnext_lin : ∀ k b, k < b → b < n → H has b = true → (∀ j, k < j → j < b → H has j = false) →
+        nextReq has n k = some b := fun k b h1 h2 h3 h4 =>
+      nextReq_of_LinNext has n k b ⟨h1, h2, h3, h4⟩
+    by_cases hsingle : cur' = fd
+    · -- a single explicit delta: shift
+      subst hsingle
+      simp only [if_true]
+      have hnews : news = [] := by
+        cases news with
+        | nil => rfl
+        | cons c cs =>
+          obtain ⟨⟨_, ⟨_, _, m4, _⟩, _, _⟩, m8, m9⟩ := g5 c (List.mem_cons_self ..)
+          omega
+      subst hnews
+      refine ⟨_, _, rfl, fun hall => ?_, fun c hc k hk hcov => ?_, fun k hk hk0 _ => ?_⟩
+      · have := hall cur' hfdn; rw [this] at hfdt; cases hfdt
+      · simp only [List.nil_append, List.mem_singleton] at hc
+        subst hc
+        obtain ⟨_, _, c3⟩ := (covers_iff _ k).mp hcov
+        have hkne : k ≠ cur' := fun h => c3 ⟨rfl, h⟩
+        rcases Nat.lt_or_ge k cur' with hlt | hge
+        · exact ⟨hbefore k hlt, hprev_wrap k hlt, hnext_lin k cur' hlt hfdn hfdt (fun j a b => hbefore j b),
+            fun _ => rfl⟩
+        · have hgt : cur' < k := by omega
+          exact ⟨hafter k hgt hk, hprev_lin k cur' hgt hk hfdt (fun j a b => hafter j a (by omega)),
+            hnext_wrap k hgt hk, fun _ => rfl⟩
+      · refine ⟨⟨0, n - 1, cur', cur', true⟩, by simp, ?_⟩
+        rw [covers_iff]
+        refine ⟨Nat.zero_le _, by simp only; omega, fun ⟨_, h⟩ => ?_⟩
+        simp only at h
+        rw [h, hfdt] at hk0; cases hk0
+    · simp only [hsingle, if_false]
+      have hlt : fd < cur' := by omega
+      refine ⟨_, _, rfl, fun hall => ?_, fun c hc k hk hcov => ?_, fun k hk hk0 _ => ?_⟩
+      · have := hall fd hfdn; rw [this] at hfdt; cases hfdt
+      · simp only [List.mem_append, List.mem_singleton] at hc
+        rcases hc with (hc | hc) | hc
+        · exact hmid c hc k hk hcov
+        · subst hc
+          obtain ⟨c1, c2, _⟩ := (covers_iff _ k).mp hcov
+          simp only at c1 c2
+          have hgt : cur' < k := by omega
+          exact ⟨hafter k hgt hk, hprev_lin k cur' hgt hk g1 (fun j a b => hafter j a (by omega)),
+            hnext_wrap k hgt hk, fun hs => by cases hs⟩
+        · by_cases hfd0 : fd > 0
+          · simp only [hfd0, if_true, List.mem_singleton] at hc
+            subst hc
+            obtain ⟨c1, c2, _⟩ := (covers_iff _ k).mp hcov
+            simp only at c1 c2
+            have hklt : k < fd := by omega
+            exact ⟨hbefore k hklt, hprev_wrap k hklt,
+              hnext_lin k fd hklt hfdn hfdt (fun j a b => hbefore j b), fun hs => by cases hs⟩
+          · simp only [hfd0, if_false, List.not_mem_nil] at hc
+      · -- coverage
+        have hkfd : k ≠ fd := by intro h; rw [h, hfdt] at hk0; cases hk0
+        have hkcur : k ≠ cur' := by intro h; rw [h, g1] at hk0; cases hk0
+        rcases Nat.lt_or_ge k fd with h1 | h1
+        · have hfd0 : fd > 0 := by omega
+          refine ⟨⟨0, fd - 1, cur', fd, false⟩, by simp [hfd0], ?_⟩
+          rw [covers_iff]; simp only; refine ⟨Nat.zero_le _, by omega, fun ⟨h, _⟩ => by cases h⟩
+        · rcases Nat.lt_or_ge cur' k with h2 | h2
+          · refine ⟨⟨cur' + 1, n - 1, cur', fd, false⟩, by simp, ?_⟩
+            rw [covers_iff]; simp only; refine ⟨by omega, by omega, fun ⟨h, _⟩ => by cases h⟩
+          · have hk1 : fd < k := by omega
+            have hk2 : k < cur' := by omega
+            obtain ⟨a, a1, a2, a3, a4⟩ := exists_prev has fd hfdt k hk1
+            obtain ⟨b, b1, b2, b3, b4⟩ := exists_next has cur' g1 (cur' - k) k (by omega) (by omega)
+            have hcon : Consec has a b := ⟨a3, b3, by omega, fun j h1 h2 => by
+              rcases Nat.lt_or_ge j k with h | h
+              · exact a4 j h1 h
+              · rcases Nat.lt_or_ge k j with h' | h'
+                · exact b4 j h' h2
+                · have : j = k := by omega
+                  rw [this]; exact hk0⟩
+            obtain ⟨c, hc1, hc2, hc3⟩ := g6 a b hcon a1 b2
+            obtain ⟨⟨m1, _, m6, m7⟩, _, _⟩ := g5 c hc1
+            refine ⟨c, by simp [hc1], ?_⟩
+            rw [covers_iff]
+            refine ⟨by omega, by omega, fun ⟨h, _⟩ => by rw [m1] at h; cases h⟩
+
+theorem prevFrom_none' (enc : List Bool) (n : Nat) (h : ∀ j, j < n → enc.getD j false = false) :
+    ∀ f p, p < n → prevFrom enc n f p = none := by
+  intro f; induction f with
+  | zero => intro p _; rfl
+  | succ f ih =>
+    intro p hp
+    simp only [prevFrom, h p hp, Bool.false_eq_true, if_false]
+    exact ih _ (by unfold predC; split <;> omega)
+
+/-- **reader = specification, one contour.**  With the calls of the loop-faithful reader model and
+exact per-point arithmetic, `interpolate_deltas` assigns every point of the contour exactly the
+delta the specification's inference assigns. -/
+theorem readerExact_eq_spec (cs ds : List Pt) (has : List Bool) (np : Nat) (hn : 0 < ds.length)
+    (hnp : ds.length ≤ np) (calls : List Call) (p' : Nat)
+    (h : readerContourCalls has np 0 (ds.length - 1) = some (calls, p')) (k : Nat) (hk : k < ds.length) :
+    readerExactAt cs ds has calls k = inferSpec cs ds has k := by
+  obtain ⟨calls', p'', e, hA, hB, hC⟩ := readerContourCalls_spec has ds.length np hn hnp
+  rw [e] at h
+  simp only [Option.some.injEq, Prod.mk.injEq] at h
+  obtain ⟨rfl, rfl⟩ := h
+  unfold readerExactAt inferSpec
+  cases hh : has.getD k false with
+  | true => simp
+  | false =>
+    simp only [Bool.false_eq_true, if_false]
+    by_cases hex : ∃ j, j < ds.length ∧ H has j = true
+    · obtain ⟨c0, hc0, hcov0⟩ := hC k hk hh hex
+      cases hf : calls'.find? (fun c => covers c k) with
+      | none =>
+        have := List.find?_eq_none.mp hf c0 hc0
+        simp [hcov0] at this
+      | some c =>
+        have hcm : c ∈ calls' := List.mem_of_find?_eq_some hf
+        have hcc : covers c k = true := by
+          have := List.find?_some hf; simpa using this
+        obtain ⟨_, g2, g3, _⟩ := hB c hcm k hk hcc
+        rw [g2, g3]
+        simp only [readerPoint, iupPoint]
+        have ex : ∀ in1 d1 in2 d2 c, readerAxis in1 d1 in2 d2 c = iupAxis in1 d1 in2 d2 c := by
+          intro in1 d1 in2 d2 c
+          obtain ⟨h1, h2, h3⟩ := reader_eq_writer_axis in1 d1 in2 d2 c
+          rw [h2] at h1
+          exact Prod.ext (Int.eq_of_mul_eq_mul_right (by omega) h1) h2
+        rw [ex, ex]
+    · have hall : ∀ j, j < ds.length → has.getD j false = false := by
+        intro j hj
+        cases hj2 : has.getD j false with
+        | false => rfl
+        | true => exact absurd ⟨j, hj, hj2⟩ hex
+      have hcalls := hA hall
+      subst hcalls
+      simp only [List.find?_nil]
+      unfold prevReq
+      rw [prevFrom_none' has ds.length hall _ _ (by unfold predC; split <;> omega)]
+
+/-- what `iup_delta_optimize` returns, contour slice by contour slice (`ends` = the sorted contour
+ends followed by the four phantom points, each its own slice): the output for the slice
+`start ..= e` carries the slice's deltas (through `ot_round`) and a kept-set that is sound for
+that slice. -/
+def GlyphSound (t : Tol) (ds cs : List Pt) : List Nat → Nat → List (Int × Int × Bool) → Prop
+  | [], _, out => out = []
+  | e :: ends, start, out =>
+    let dsl := (ds.drop start).take (e + 1 - start)
+    let csl := (cs.drop start).take (e + 1 - start)
+    ∃ enc, enc.length = dsl.length ∧ Sound t dsl csl enc ∧
+      out.take dsl.length = (List.range dsl.length).map (fun i =>
+        (otRound16 (getP dsl i).1, otRound16 (getP dsl i).2, enc.getD i false)) ∧
+      GlyphSound t ds cs ends (e + 1) (out.drop dsl.length)
+
+theorem optimizeLoop_sound (t : Tol) (ds cs : List Pt) (hlen : cs.length = ds.length) :
+    ∀ (ends : List Nat) (start : Nat) (acc l : List (Int × Int × Bool)),
+      optimizeLoop t ds cs ends start acc = .ok l →
+      ∃ out, l = acc ++ out ∧ GlyphSound t ds cs ends start out := by
+  intro ends
+  induction ends with
+  | nil =>
+    intro start acc l h
+    simp only [optimizeLoop, OptResult.ok.injEq] at h
+    exact ⟨[], by simp [h], rfl⟩
+  | cons e ends ih =>
+    intro start acc l h
+    simp only [optimizeLoop] at h
+    generalize hds : (ds.drop start).take (e + 1 - start) = dsl at h
+    generalize hcs : (cs.drop start).take (e + 1 - start) = csl at h
+    have hl2 : csl.length = dsl.length := by
+      rw [← hds, ← hcs]; simp only [List.length_take, List.length_drop, hlen]
+    unfold contourOptimize at h
+    cases hce : contourEncode t dsl csl with
+    | none => rw [hce] at h; cases h
+    | some enc =>
+      rw [hce] at h
+      simp only at h
+      obtain ⟨out, hout, hrest⟩ := ih (e + 1) _ l h
+      obtain ⟨he1, he2⟩ := contourEncode_sound t dsl csl enc hl2 hce
+      refine ⟨(List.range dsl.length).map (fun i =>
+        (otRound16 (getP dsl i).1, otRound16 (getP dsl i).2, enc.getD i false)) ++ out,
+        by rw [hout, List.append_assoc], ?_⟩
+      simp only [GlyphSound, hds, hcs]
+      refine ⟨enc, he1, he2, ?_, ?_⟩
+      · rw [List.take_left']; simp
+      · rw [List.drop_left']
+        · exact hrest
+        · simp
+
+/-- **Soundness of `iup_delta_optimize`** (whole glyph). -/
+theorem deltaOptimize_sound (t : Tol) (ds cs : List Pt) (ends : List Nat) (l : List (Int × Int × Bool))
+    (h : deltaOptimize t ds cs ends = .ok l) :
+    cs.length = ds.length ∧ 4 ≤ ds.length ∧
+    GlyphSound t ds cs (sortNat ends ++ [cs.length - 4, cs.length - 3, cs.length - 2, cs.length - 1]) 0 l := by
+  unfold deltaOptimize at h
+  simp only at h
+  by_cases h1 : cs.length < 4
+  · rw [if_pos h1] at h; cases h
+  · rw [if_neg h1] at h
+    by_cases h2 : ds.length ≠ cs.length
+    · rw [if_pos h2] at h; cases h
+    · rw [if_neg h2] at h
+      generalize (match (sortNat ends).getLast? with | some v => v + 1 | none => 0) + 4 = expected at h
+      by_cases h3 : cs.length ≠ expected
+      · rw [if_pos h3] at h; cases h
+      · rw [if_neg h3] at h
+        have hlen : cs.length = ds.length := by
+          simp only [ne_eq, Decidable.not_not] at h2; exact h2.symm
+        obtain ⟨out, hout, hs⟩ := optimizeLoop_sound t ds cs hlen _ 0 [] l h
+        simp only [List.nil_append] at hout
+        subst hout
+        exact ⟨hlen, by omega, hs⟩
+
 end FontVerif.Iup
